@@ -398,7 +398,9 @@ func c02Cluster(c *Ctx) {
 		for _, f := range it.Flags {
 			items = append(items, &Item{Kind: IFlag, Opt: f})
 		}
-		if it.Opt != nil {
+		if it.Opt != nil && it.OptNoArg {
+			items = append(items, &Item{Kind: IOptNoArg, Opt: it.Opt})
+		} else if it.Opt != nil {
 			items = append(items, &Item{Kind: IOcc, Opt: it.Opt, Text: it.Text, Quoted: it.Quoted, Sp: SpShortSep})
 		}
 	}
